@@ -348,7 +348,7 @@ where
         Some((x, y)) if rect_contains(&rect, x, y) => {
             let k = ((y as i32 - ry) as u32) * rw + (x as i32 - rx) as u32;
             if k < n {
-                assert!(c.probe_writes == 1 && c.probe_val == M::ColorFormat::from_index(k).wire(), "[C04][C01] colour k lands on point k");
+                assert!(c.probe_writes == 1 && c.probe_val == M::ColorFormat::from_index(k).wire(), "[C04][C01][C02] colour k lands on point k: the visible remainder is drawn as if the clipped part had not been supplied");
             } else {
                 assert!(c.probe_writes == 0, "[C04] points beyond the end of the stream stay untouched");
             }
